@@ -1,7 +1,7 @@
 (* Entry points evaluated by the extracted driver: one harness case -> one report line. *)
 From Coq Require Import Ascii String.
 From Coq Require Import List NArith ZArith QArith Bool Arith.
-From V Require Import Str Num Tok Tables Items Read Decode Bytes WellFormed Doc Case Paginate Pipeline Document TextSpec Checks Validate Assemble StrWidth.
+From V Require Import Str Num Tok Tables Items Read Decode Bytes WellFormed Doc Case Paginate Pipeline Document TextSpec Checks Validate Assemble StrWidth Ctx.
 Import ListNotations.
 Local Open Scope string_scope.
 Local Open Scope list_scope.
@@ -375,10 +375,44 @@ Definition run_c17 (id : str) (inputs : list str) (out : sexp) : str :=
   | _ => line [kv "id" id; kv "bad" (s2l "out")]
   end.
 
+(* C14: ([c14] [id] ((fails (colours)) ...) ((kind doc) ...)) -> the context each encode runs under and leaves behind.
+   C15: ([c15] [id] ((fails (colours)) ...) ((kind thread doc) ...)) -> what every colour look-up observes. *)
+Definition ctx_str (c : option (list str)) : str :=
+  match c with None => s2l "N" | Some l => s2l "S:" ++ join [44%N] l end.
+
+Definition run_c14 (id : str) (pals : list (bool * list str)) (ops : list (Z * nat)) : str :=
+  let pal d := snd (nth d pals (false, [])) in
+  let enc (c : option (list str)) d := if fst (nth d pals (false, [])) then Err ValueErr else Ok c in
+  let h := map (fun o => if Z.eqb (fst o) 0 then Construct (snd o) else Encode (snd o)) ops in
+  let '(final, outs) := run nat (option (list str)) pal enc None h in
+  let show o := match o with
+                | None => s2l "C"
+                | Some (Ok c) => s2l "E" ++ ctx_str c
+                | Some (Err _) => s2l "X"
+                end in
+  line [kv "id" id; kv "trace" (join [59%N] (map show outs)); kv "final" (ctx_str final)].
+
+Definition run_c15 (id : str) (pals : list (bool * list str)) (evs : list (Z * (nat * nat))) : str :=
+  let pal d := snd (nth d pals (false, [])) in
+  let sched := map (fun e => let '(k, (t, d)) := e in
+                             if Z.eqb k 0 then ESet t d else if Z.eqb k 1 then EGet t else EClear t) evs in
+  let obs := observe nat pal [] sched in
+  line [kv "id" id; kv "obs" (join [59%N] (map (fun p => nat_str (fst p) ++ [58%N] ++ ctx_str (snd p)) obs))].
+
 Definition run_case' (e : sexp) : str :=
   match e with
   | SList [SStr mode; SStr id; SList ins; out] =>
-    if str_eqb mode (s2l "c17") then
+    if str_eqb mode (s2l "c14") then
+      match dList (dPair dBool (dList dStr)) (SList ins), dList (dPair dZ dNat) out with
+      | Some pals, Some ops => run_c14 id pals ops
+      | _, _ => line [kv "id" id; kv "bad" (s2l "c14")]
+      end
+    else if str_eqb mode (s2l "c15") then
+      match dList (dPair dBool (dList dStr)) (SList ins), dList (dPair dZ (dPair dNat dNat)) out with
+      | Some pals, Some evs => run_c15 id pals evs
+      | _, _ => line [kv "id" id; kv "bad" (s2l "c15")]
+      end
+    else if str_eqb mode (s2l "c17") then
       match mapO dStr ins with
       | Some inputs => run_c17 id inputs out
       | None => line [kv "id" id; kv "bad" (s2l "inputs")]
